@@ -325,17 +325,20 @@ class Fuzz(Stage):
 
 # -------------------------------------------------------------------------------------------------
 def c01(ctx):
-    return [Native("roundtrip", "c01")]
+    return [Native("roundtrip", "c01"),
+            NativeRelease("release-profile", "c01", args=["--scale", "0.2"], note="the same monitor built with the plain release profile (debug assertions and overflow checks off, as users ship it) on a 20 % sample: verdicts can differ between profiles")]
 
 
 def c02(ctx):
     return [Native("faults", "c02"),
+            NativeRelease("release-profile", "c02", args=["--scale", "0.2"], note="the same monitor built with the plain release profile (debug assertions and overflow checks off, as users ship it) on a 20 % sample: verdicts can differ between profiles"),
             Native("huge-boundary-shift", "c02", shards=3, quick_shards=3, args=["--part", "huge"], thorough_only=True, timeout=3600,
                    note="one process per backend (v4, v2, v4-sodium): signature over P || 0^(2^31) (v4 also 2^32) offered with the zero bytes moved into the assertion / footer")]
 
 
 def c03(ctx):
     return [SelfTest(), Native("differential", "c03"),
+            NativeRelease("release-profile", "c03", args=["--scale", "0.2"], note="the same monitor built with the plain release profile (debug assertions and overflow checks off, as users ship it) on a 20 % sample: verdicts can differ between profiles"),
             Hooked("derived-counter-hook", "h1", args=["--part", "C03"], shards=8, quick_shards=8,
                    note="hook H1: v3 local tokens with a forced derived counter block that wraps 64 bits")]
 
@@ -398,16 +401,19 @@ def c04(ctx):
 
 def c05(ctx):
     return [Native("roundtrip", "c05"),
+            NativeRelease("release-profile", "c05", args=["--scale", "0.2"], note="the same monitor built with the plain release profile (debug assertions and overflow checks off, as users ship it) on a 20 % sample: verdicts can differ between profiles"),
             WithShim("rsa-kem-leading-zeros", "c05", args=["--part", "kemzeros"], shards=7, quick_shards=7,
                      note="k1.seal with the library's 512-byte draw forced (LD_PRELOAD feed) to stored r values whose RSA-KEM ciphertext starts with 1, 2 or 3 zero bytes")]
 
 
 def c06(ctx):
-    return [Native("faults", "c06")]
+    return [Native("faults", "c06"),
+            NativeRelease("release-profile", "c06", args=["--scale", "0.2"], note="the same monitor built with the plain release profile (debug assertions and overflow checks off, as users ship it) on a 20 % sample: verdicts can differ between profiles")]
 
 
 def c07(ctx):
     return [SelfTest(), Native("differential", "c07"),
+            NativeRelease("release-profile", "c07", args=["--scale", "0.2"], note="the same monitor built with the plain release profile (debug assertions and overflow checks off, as users ship it) on a 20 % sample: verdicts can differ between profiles"),
             WithShim("rsa-kem-leading-zeros", "c07", args=["--part", "kemzeros"], shards=7, quick_shards=7,
                      note="k1.seal with forced r (1-3 leading zero bytes in the RSA-KEM ciphertext): fixed length, unsealed by library and reference"),
             Hooked("derived-counter-hook", "h1", args=["--part", "C07"], shards=8, quick_shards=8,
@@ -433,7 +439,8 @@ def c11(ctx):
 
 
 def c12(ctx):
-    return [Native("probes", "c12")]
+    return [Native("probes", "c12"),
+            NativeRelease("release-profile", "c12", args=["--scale", "0.3"], note="the same monitor built with the plain release profile (debug assertions and overflow checks off, as users ship it) on a 30 % sample: verdicts can differ between profiles")]
 
 
 def c13(ctx):
@@ -446,6 +453,7 @@ def c14(ctx):
 
 def c15(ctx):
     return [SelfTest(), Native("pae", "c15"),
+            NativeRelease("release-profile", "c15", args=["--scale", "1.0"], note="the same monitor built with the plain release profile (debug assertions and overflow checks off, as users ship it) on a full sample: verdicts can differ between profiles"),
             Miri("miri-pae", "c15", ["--scale", "0.004", "--part", "encoder"], shards=8, prop="C15", note="PAE encoder workload under Miri")]
 
 
@@ -453,6 +461,7 @@ def c16(ctx):
     return [
         Native("fresh", "c16", args=["--part", "fresh"], note="Part A: random fields of N consecutive operations per kind logged to run/C16/<tier>/c16-events-*.bin"),
         Single("offline-uniqueness-check", "c16check", lambda c: [c.rundir], note="offline checker over the event logs of all shards: sorted merge, no random field may repeat"),
+        Native("across-fork", "c16", args=["--part", "fork"], note="per backend and operation kind: warm-up, fork(), six operations on each side; no random field may occur in both parent and child"),
         WithShim("fail-first", "c16", args=["--part", "failfirst"], shards=36, quick_shards=36, env={"PVMON_STALL_SECS": "150"},
                  note="one process per (getrandom backend, operation kind): the first OS draw the process ever makes fails; Err, then 40 operations that must each draw from the OS and produce distinct output"),
         WithShim("faults", "c16", args=["--part", "faults"], shards=4, quick_shards=4, env={"PVMON_STALL_SECS": "150"}, note="Part B/C: fail-from-k and short-read-at-k at every OS draw index, fed bytes must reappear (getrandom backends v1-v4)"),
